@@ -17,8 +17,9 @@ def baseName (t : String) : String :=
     | _ => t
   if t.endsWith "_dist" then (t.dropEnd 5).toString else t
 
-/-- which tables hold timestamped data and which are per-day indexes (names from `Gen.Tables`) -/
-def tableKind (dataTables indexTables : List String) (t : String) : TableKind :=
+/-- which tables hold timestamped data and which are per-day indexes (names from `Gen.Tables`),
+    for both table layouts: the classification the driver uses -/
+def tableKindOf (dataTables indexTables : List String) (t : String) : TableKind :=
   let n := baseName t
   if dataTables.contains n then .data else if indexTables.contains n then .index else .other
 
@@ -31,14 +32,23 @@ structure Window where
 deriving Repr
 
 /-- top-level conjuncts of a condition -/
-def conjuncts : Option Expr → List Expr
+def conjuncts1 : Option Expr → List Expr
   | none => []
   | some (.logical "and" cs) => cs
   | some e => [e]
 
-def isTsCol (s : String) : Bool := s = "timestamp_ns" || s.endsWith ".timestamp_ns"
-def isDateCol (s : String) : Bool := s = "date" || s.endsWith ".date"
-def isFpCol (s : String) : Bool := s = "fingerprint" || s.endsWith ".fingerprint"
+def splice : Expr → List Expr
+  | .logical "and" cs => cs
+  | e => [e]
+
+/-- conjuncts, looking through one nested `and` (`AndWhere(sql.And(…))`) -/
+def conjuncts (c : Option Expr) : List Expr := (conjuncts1 c).flatMap splice
+
+/-- column references the planners write (explicit lists: an unknown spelling fails closed) -/
+def isTsCol (s : String) : Bool :=
+  ["timestamp_ns", "samples.timestamp_ns", "traces_idx.timestamp_ns", "time_series.timestamp_ns", "traces.timestamp_ns"].contains s
+def isDateCol (s : String) : Bool := ["date", "time_series.date", "traces_idx.date"].contains s
+def isFpCol (s : String) : Bool := ["fingerprint", "samples.fingerprint", "time_series.fingerprint"].contains s
 
 /-- a lower timestamp bound not below `from − slack` -/
 def isLowerTs (w : Window) : Expr → Bool
@@ -66,7 +76,7 @@ def dateUpper : Expr → Option Bytes
 
 /-- a comparison on a date column -/
 def mentionsDate : Expr → Bool
-  | .logical _ [.raw c, _] => isDateCol c
+  | .logical fn cs => fn != "and" && fn != "or" && (match cs with | [.raw c, _] => isDateCol c | _ => false)
   | _ => false
 
 /-- Unix second of a nanosecond instant -/
@@ -86,10 +96,17 @@ def fpIn : Expr → Option Alias
   | .isIn (.raw c) [.withRef a] => if isFpCol c then some a else none
   | _ => none
 
+/-- `x IN (alias)` / `(x, y) IN (alias)` on id columns of the traces table -/
+def idIn : Expr → Option Alias
+  | .isIn (.raw c) [.withRef a] => if c = "trace_id" ∨ c = "traces.trace_id" ∨ c = "(traces.trace_id, traces.span_id)" then some a else none
+  | _ => none
+
+/-- classification of table names; the theorems hold for every classification (hypotheses say what they
+    need of it), the driver uses `tableKindOf` over the regenerated `Gen.Tables` -/
 structure Cfg where
-  dataTables : List String
-  indexTables : List String
-  typedTables : List String      -- tables that have a `type` column (Loki samples, metrics_15s, time_series, time_series_gin)
+  kind : String → TableKind
+  typed : String → Bool          -- tables that have a `type` column (Loki samples, metrics_15s, time_series, time_series_gin)
+  byId : String → Bool := fun _ => false   -- data tables whose rows may instead be reached through ids selected by a confined scan (traces)
 
 def fromTable : Option Expr → Option String
   | some (.raw t) => some t
@@ -103,38 +120,101 @@ def bodyConfined (cfg : Cfg) (w : Window) (okFp : List Alias) : Sel → Bool
     | none => true                       -- reads a sub-query (or nothing): confined by induction
     | some t =>
       let cs := conjuncts pre ++ conjuncts wher
-      let typed := !(w.needType && cfg.typedTables.contains (baseName t)) || cs.any (isTypeFilter w)
-      match tableKind cfg.dataTables cfg.indexTables t with
-      | .data => cs.any (isLowerTs w) && cs.any (isUpperTs w) && typed
+      let typed := !(w.needType && cfg.typed t) || cs.any (isTypeFilter w)
+      match cfg.kind t with
+      | .data => (cs.any (isLowerTs w) && cs.any (isUpperTs w) && typed) ||
+          (cfg.byId t && cs.any (fun e => match idIn e with | some a => okFp.contains a | none => false))
       | .index =>
-        -- (a) a date range that covers the window, with the type filter; or (b) only fingerprints of a confined selection
-        let lowerOk := cs.any (fun e => match dateLower e with
-          | some d => (lowerInstants w).any (fun t => Time.formatDate t == d) | none => false)
-        let upperOk := cs.all (fun e => match dateUpper e with
-          | some d => (upperInstants w).any (fun t => Time.formatDate t == d)
-          | none => !mentionsDate e || (dateLower e).isSome)   -- any other comparison on the date is rejected
-        (lowerOk && upperOk && typed) || cs.any (fun e => match fpIn e with | some a => okFp.contains a | none => false)
+        -- every comparison on the date column must be an acceptable bound (never tighter than the window);
+        -- and the scan is anchored either (a) by a lower date bound plus the type filter, or (b) by a
+        -- restriction to the fingerprints of a confined index selection
+        let datesOk := cs.all (fun e =>
+          !mentionsDate e ||
+          (match dateLower e with
+           | some d => (lowerInstants w).any (fun t => Time.formatDate t == d)
+           | none => match dateUpper e with
+             | some d => (upperInstants w).any (fun t => Time.formatDate t == d)
+             | none => false))
+        let lowerOk := cs.any (fun e => (dateLower e).isSome)
+        datesOk && ((lowerOk && typed) || cs.any (fun e => match fpIn e with | some a => okFp.contains a | none => false))
       | .other => true
 
-/-- a sub-query yields fingerprints of a confined index selection: it is itself a confined scan of an index table -/
+/-- a sub-query yields ids (fingerprints, trace ids) of a confined selection: it is itself a scan of a base
+    table, and every scan is required to be confined -/
 def isIndexSelection (cfg : Cfg) : Sel → Bool
   | .mk _ _ _ from_ _ _ _ _ _ _ _ =>
     match fromTable from_ with
-    | some t => tableKind cfg.dataTables cfg.indexTables t == .index
+    | some t => cfg.kind t == .index || cfg.kind t == .data   -- (every such select is itself required to be confined)
     | none => false
+
+/-- … or it only re-shapes such a selection (reads from an alias already known to be one) -/
+def derivesFrom (ok : List Alias) : Sel → Bool
+  | .mk _ _ _ (some (.withRef a)) _ _ _ _ _ _ _ => ok.contains a
+  | _ => false
 
 def withsConfined (cfg : Cfg) (w : Window) : List Alias → List (Alias × Sel) → Bool
   | _, [] => true
   | ok, (a, s) :: rest =>
-    bodyConfined cfg w ok s && withsConfined cfg w (if isIndexSelection cfg s then a :: ok else ok) rest
+    bodyConfined cfg w ok s && withsConfined cfg w (if isIndexSelection cfg s || derivesFrom ok s then a :: ok else ok) rest
 
 def okAfter (cfg : Cfg) : List Alias → List (Alias × Sel) → List Alias
   | ok, [] => ok
-  | ok, (a, s) :: rest => okAfter cfg (if isIndexSelection cfg s then a :: ok else ok) rest
+  | ok, (a, s) :: rest => okAfter cfg (if isIndexSelection cfg s || derivesFrom ok s then a :: ok else ok) rest
+
+/-- operands of a set operation in FROM -/
+def fromSetop : Option Expr → List Sel
+  | some (.col (.setop _ ss) _) => ss
+  | some (.setop _ ss) => ss
+  | _ => []
 
 /-- every scan of the statement is confined -/
 def confined (cfg : Cfg) (w : Window) : Sel → Bool
   | .mk ws d c f j p wh g h ob l =>
     withsConfined cfg w [] ws && bodyConfined cfg w (okAfter cfg [] ws) (.mk ws d c f j p wh g h ob l)
+
+/-! ### statements with set operations in FROM (TraceQL `&&` / `||`): every operand, a statement with its own
+    WITH list, must be confined, and a select over operands that each yield ids of a confined selection yields
+    such ids itself. Used by the driver on dumped statements; fuel bounds the nesting. -/
+def withsOf : Sel → List (Alias × Sel)
+  | .mk ws _ _ _ _ _ _ _ _ _ _ => ws
+def fromOf : Sel → Option Expr
+  | .mk _ _ _ f _ _ _ _ _ _ _ => f
+
+mutual
+/-- the statement's result is (derived from) a confined index selection -/
+def yieldsOk (cfg : Cfg) : Nat → List Alias → Sel → Bool
+  | 0, _, _ => false
+  | fuel + 1, ok, s =>
+    let ok' := okDeep cfg fuel ok (withsOf s)
+    isIndexSelection cfg s || derivesFrom ok' s ||
+      (!(fromSetop (fromOf s)).isEmpty && allYield cfg fuel (fromSetop (fromOf s)))
+def allYield (cfg : Cfg) : Nat → List Sel → Bool
+  | _, [] => true
+  | 0, _ => false
+  | fuel + 1, s :: ss => yieldsOk cfg fuel [] s && allYield cfg fuel ss
+def okDeep (cfg : Cfg) : Nat → List Alias → List (Alias × Sel) → List Alias
+  | _, ok, [] => ok
+  | 0, ok, _ => ok
+  | fuel + 1, ok, (a, s) :: rest => okDeep cfg fuel (if yieldsOk cfg fuel ok s then a :: ok else ok) rest
+end
+
+mutual
+def confinedDeep (cfg : Cfg) (w : Window) : Nat → Sel → Bool
+  | 0, _ => false
+  | fuel + 1, s =>
+    withsDeep cfg w fuel [] (withsOf s) &&
+    bodyConfined cfg w (okDeep cfg fuel [] (withsOf s)) s &&
+    allDeep cfg w fuel (fromSetop (fromOf s))
+def withsDeep (cfg : Cfg) (w : Window) : Nat → List Alias → List (Alias × Sel) → Bool
+  | _, _, [] => true
+  | 0, _, _ => false
+  | fuel + 1, ok, (a, s) :: rest =>
+    bodyConfined cfg w ok s && allDeep cfg w fuel (fromSetop (fromOf s)) &&
+    withsDeep cfg w fuel (if yieldsOk cfg fuel ok s then a :: ok else ok) rest
+def allDeep (cfg : Cfg) (w : Window) : Nat → List Sel → Bool
+  | _, [] => true
+  | 0, _ => false
+  | fuel + 1, s :: ss => confinedDeep cfg w fuel s && allDeep cfg w fuel ss
+end
 
 end Qryn.Confine
